@@ -129,6 +129,85 @@ fn alphabet(mode: Mode, w: u16, h: u16, reduced: bool) -> Vec<Letter> {
     v
 }
 
+/// Pictures whose *final syntax element* is each kind of element the macroblock layer can end
+/// with, at every padding length 0..7 (k PEI/PSUPP pairs of 9 bits in the header shift the end by
+/// k bits). Such a picture, alone in its reader, ends right at the end of the
+/// data: nothing may be needed beyond its last bit.
+fn tail_letters(mode: Mode, version: u8, ptype: u8, two_mbs: bool) -> Vec<Letter> {
+    let v1 = version == 1 && mode == Mode::Sorenson;
+    let is_i = ptype == 0;
+    let esc = |level: i16| -> Ev {
+        let form = if mode != Mode::Sorenson || version == 0 { Form::Esc8 } else if (-64..=63).contains(&level) { Form::Esc7 } else { Form::Esc11 };
+        Ev { run: 5, level, form }
+    };
+    // (name, last macroblock)
+    let mut tails: Vec<(String, Mb)> = vec![];
+    let intra = |b5: Blk| -> Mb {
+        let mut blocks: [Blk; 6] = std::array::from_fn(|b| Blk::dc(40 + 20 * b as u8));
+        blocks[5] = b5;
+        Mb::Coded { kind: Kind::Intra, dquant: 0, mvd: vec![], blocks }
+    };
+    let inter = |kind: Kind, mvd: Vec<(i8, i8)>, b5: Option<Blk>| -> Mb {
+        let mut blocks: [Blk; 6] = Default::default();
+        if let Some(b) = b5 {
+            blocks[5] = b;
+        }
+        Mb::Coded { kind, dquant: if kind.has_q() { -1 } else { 0 }, mvd, blocks }
+    };
+    let coefs: Vec<(String, Ev)> = vec![
+        ("short tcoef 3 bits".into(), ev_auto(true, 0, 1, v1)),
+        ("short tcoef long code".into(), ev_auto(true, 40, -1, v1)),
+        ("short tcoef mid code".into(), ev_auto(true, 1, 2, v1)),
+        ("escape small level".into(), esc(33)),
+        ("escape negative level".into(), esc(-64)),
+        ("escape wide level".into(), esc(if mode == Mode::Sorenson && version == 1 { 700 } else { 127 })),
+        ("escape wide negative level".into(), esc(if mode == Mode::Sorenson && version == 1 { -1023 } else { -127 })),
+    ];
+    for (n, e) in &coefs {
+        let mut b = Blk::dc(90);
+        b.ev = vec![e.clone()];
+        tails.push((format!("intra block ending in {n}"), intra(b)));
+        let mut b2 = Blk::dc(91);
+        b2.ev = vec![ev_auto(false, 0, 3, v1), e.clone()];
+        tails.push((format!("intra block with two events ending in {n}"), intra(b2)));
+    }
+    tails.push(("INTRADC".into(), intra(Blk::dc(200))));
+    tails.push(("INTRADC 255".into(), intra(Blk::dc(255))));
+    if !is_i {
+        tails.push(("COD = 1".into(), Mb::NotCoded));
+        for mv in [(0i8, 0i8), (0, 1), (3, -2), (-32, 31), (31, -32), (17, 0)] {
+            tails.push((format!("MVD {mv:?}"), inter(Kind::Inter, vec![mv], None)));
+        }
+        tails.push(("MVD after DQUANT".into(), inter(Kind::InterQ, vec![(2, 0)], None)));
+        tails.push(("fourth MVD".into(), inter(Kind::Inter4V, vec![(1, 1), (0, 0), (-3, 2), (0, -31)], None)));
+        for (n, e) in &coefs {
+            tails.push((format!("inter block ending in {n}"), inter(Kind::Inter, vec![(1, 0)], Some(Blk { dc: None, ev: vec![e.clone()] }))));
+        }
+        let mut late = ev_auto(true, 62, 1, v1);
+        late.run = 62;
+        tails.push(("inter block ending at position 63".into(), inter(Kind::Inter, vec![(0, 0)], Some(Blk { dc: None, ev: vec![ev_auto(false, 0, 2, v1), late] }))));
+    }
+    let (w, h) = if two_mbs { (32u16, 16u16) } else { (16, 16) };
+    let mut out = vec![];
+    for (ti, (name, mb)) in tails.iter().enumerate() {
+        for k in 0..8usize {
+            let tr = (ti * 8 + k) as u8;
+            let hd = hdr(mode, w, h, ptype, tr, k, version);
+            let mut mbs: Vec<Mb> = vec![];
+            if two_mbs {
+                mbs.push(Mb::Stuffing);
+                mbs.push(if is_i { Mb::intra_flat(77) } else { Mb::inter((1, -1)) });
+            }
+            mbs.push(mb.clone());
+            let pic = Pic { mbs, hdr: hd };
+            let bw = encode(&pic);
+            let pad = (8 - bw.nbits % 8) % 8;
+            out.push(Letter { name: format!("{}{}x{} v{} ends with {} pad{}", ["I", "P", "D"][ptype as usize], w, h, version, name, pad), bytes: bw.bytes, pad, pic });
+        }
+    }
+    out
+}
+
 /// Decode a sequence two ways; returns number of decode calls made.
 fn run_seq(rep: &Report, mode: Mode, init: Option<&Letter>, seq: &[&Letter]) -> u64 {
     let opts = if mode == Mode::Sorenson { 1 } else { 0 };
@@ -255,13 +334,64 @@ pub fn run(tier: Tier) -> Report {
             rep.sample(json!({"mode": format!("{mode:?}"), "size": [w, h], "letter": l.name, "bytes": crate::bits::hex(&l.bytes)}));
         }
     }
+    // final-element x padding sweep: the picture alone, before another picture, and after one
+    {
+        let mut tail_pads = std::collections::BTreeMap::<String, [u64; 8]>::new();
+        let mut n_tail = 0u64;
+        let mut modes: Vec<(Mode, u8)> = vec![(Mode::Sorenson, 0), (Mode::Sorenson, 1), (Mode::StdCustom, 0)];
+        if tier.thorough() {
+            modes.push((Mode::StdBaseline, 0));
+        }
+        for &(mode, version) in &modes {
+            let types: &[u8] = if mode == Mode::Sorenson { &[0, 1, 2] } else { &[0, 1] };
+            for &pt in types {
+                for two in [false, true] {
+                    if mode == Mode::StdBaseline && two {
+                        continue;
+                    }
+                    if two && !tier.thorough() && pt == 2 {
+                        continue;
+                    }
+                    let letters = if mode == Mode::StdBaseline { vec![] } else { tail_letters(mode, version, pt, two) };
+                    let (w, h) = if two { (32u16, 16u16) } else { (16, 16) };
+                    let ihdr = hdr(mode, w, h, 0, 250, 0, version);
+                    let ipic = Pic { mbs: body(&ihdr, 0, 1), hdr: ihdr };
+                    let init = Letter { name: "I".into(), bytes: encode_bytes(&ipic), pad: 0, pic: ipic };
+                    for l in &letters {
+                        let key = l.name.split(" pad").next().unwrap_or("").split(" ends with ").nth(1).unwrap_or("").to_string();
+                        tail_pads.entry(key).or_insert([0; 8])[l.pad] += 1;
+                    }
+                    let calls: u64 = letters
+                        .par_iter()
+                        .map(|l| {
+                            let mut c = run_seq(&rep, mode, Some(&init), &[l]);
+                            c += run_seq(&rep, mode, Some(&init), &[l, &init]);
+                            c += run_seq(&rep, mode, None, &[&init, l]);
+                            c += run_seq(&rep, mode, Some(&init), &[l, l]);
+                            c
+                        })
+                        .sum();
+                    rep.add_transitions(calls);
+                    rep.add_states(4 * letters.len() as u64);
+                    n_tail += 4 * letters.len() as u64;
+                }
+            }
+        }
+        rep.extra("final_element_sequences", json!(n_tail));
+        rep.extra("final_elements", json!(tail_pads.len()));
+        for (k, p) in &tail_pads {
+            if p.iter().any(|c| *c == 0) {
+                rep.violation("C15/machinery-tail-padding-coverage", format!("final element '{k}' does not occur at every padding length: {p:?}"), json!({"kind": "machinery"}));
+            }
+        }
+    }
     rep.extra("sequences", json!(nseq));
     rep.extra("letters_by_padding_bits", json!(pads));
     if pads.iter().any(|p| *p == 0) {
         rep.violation("C15/machinery-padding-coverage", format!("picture alphabet does not realise every padding length 0..7: {pads:?}"), json!({"kind": "machinery"}));
     }
     rep.set_rule(&format!(
-        "all sequences of 1..={maxlen} pictures from an alphabet of type {{I,P,D}} x 8 PEI counts (every padding length 0..7) x bodies (last macroblock coded with AC data / not coded / with MCBPC stuffing codewords) per size, from a fresh decoder and after an I picture, in Sorenson and standard mode: decoder A reads the concatenation from one reader, decoder B gets one reader per picture; A, B and the reference decoder must agree after every call and A's reader must end within 8 bits of the end; non-trivial = sequences of two or more pictures"
+        "all sequences of 1..={maxlen} pictures from an alphabet of type {{I,P,D}} x 8 PEI counts (every padding length 0..7) x bodies (last macroblock coded with AC data / not coded / with MCBPC stuffing codewords) per size, from a fresh decoder and after an I picture, in Sorenson and standard mode: decoder A reads the concatenation from one reader, decoder B gets one reader per picture; A, B and the reference decoder must agree after every call and A's reader must end within 8 bits of the end; plus pictures ending in each kind of final syntax element (every TCOEF form incl. each escape width, INTRADC, COD, each MVD shape, after DQUANT, position 63) at every padding length 0..7, alone / before / after another picture; non-trivial = sequences of two or more pictures"
     ));
     rep.assume("pictures of one sequence share a size (prediction across sizes is outside the valid-stream premise)");
     rep
